@@ -22,6 +22,8 @@ The globals are reset by the harness only between programs.
 """
 import itertools
 
+import numpy as np
+
 import nengo
 import nengo_spa as spa
 from nengo_spa.action_selection import ActionSelection
@@ -201,7 +203,14 @@ class Runner:
     def ifmax(self, name, cond, effs):
         vals = []
         for e in effs:
-            vals.append("not-a-route" if e == "o" else self.route(e))
+            if e == "o":
+                # a non-routing effect of any Python kind (hashable or not) must be reported with the documented error
+                self.n_other = getattr(self, "n_other", 0) + 1
+                pool = ["not-a-route", 3.5, [], {"k": 1}, {1, 2}, np.zeros(2), ["x"], (1, 2), object()]
+                # (`None` is left out: `ifmax(cond, None)` is read as "no name given", i.e. `ifmax(cond)`)
+                vals.append(pool[self.n_other % len(pool)])
+            else:
+                vals.append(self.route(e))
         c = {"z": 0, "s": spa.dot(self.a, spa.sym.A), "p": self.a, "u": object(), "m": None}[cond]
         inside = bool(self.lex)
         try:
